@@ -133,7 +133,32 @@ def write_tool_roundtrip(v, key):
         shutil.rmtree(d, ignore_errors=True)
 
 
+def numeric_twins(ctx):
+    """run FIRST: history-dependent defects (caches keyed by value) show only before the process has emitted much"""
+    # numeric twins: an int and the equal float (1 == 1.0 and hash(1) == hash(1.0) in Python) emitted in one process
+    #      and in one document, in both orders, must each keep their own type ----
+    from octave_mcp.core.ast_nodes import Assignment, Document, ListValue
+    from octave_mcp.core.emitter import emit
+    from octave_mcp.core.parser import parse
+    for n in [0, 1, 3, 7, 250, -5, 10**6, 2**53]:
+        for first, second in ((n, float(n)), (float(n), n), (n, -float(n) if n == 0 else float(n))):
+            ctx.count()
+            ctx.nontrivial(("twin", repr(first), repr(second)))
+            t = emit(Document(name="D", sections=[Assignment(key="A", value=first), Assignment(key="B", value=second),
+                                                  Assignment(key="L", value=ListValue(items=[second, first]))]))
+            try:
+                d2 = parse(t)
+                got = [d2.sections[0].value, d2.sections[1].value] + list(d2.sections[2].value.items)
+                ok = same(first, got[0]) and same(second, got[1]) and same(second, got[2]) and same(first, got[3])
+            except Exception as e:  # noqa
+                got, ok = f"EXC {type(e).__name__}", False
+            if not ok:
+                ctx.property_failure({"values": [repr(first), repr(second)], "emitted": t, "read_back": repr(got)},
+                                     "an int and the equal float written in one document do not both keep value and type")
+
+
 def run(ctx):
+    numeric_twins(ctx)
     have_model = ctx.build_status["drivers"].get("syn", False)
     ctx.extra["rule"] = ("strings: exhaustive length<=2 (thorough: <=3) over a %d-symbol alphabet of lexer-significant "
                          "classes and multi-character atoms + random strings up to 60 atoms; ints up to 2^200 and "
